@@ -86,6 +86,9 @@ func (i *Index) Add(r Record, bin uint32, c bgzf.Chunk, placed, mapped bool) err
 	}
 
 	rid := r.RefID()
+	if rid < 0 {
+		return errors.New("index: attempt to add placed record without a valid reference ID")
+	}
 	if rid < len(i.Refs)-1 {
 		return errors.New("index: attempt to add record out of reference ID sort order")
 	}
